@@ -31,7 +31,7 @@ PLAN = {
     "C03": dict(families=[("join", 36, 360)], oracle=lambda h: T.oracle_join(h), slices=["snapj"], ref="§7 C03"),
     "C07": dict(families=[("promo", 30, 300)], oracle=lambda h: T.oracle_promo(h), slices=["promo"], ref="§7 C07"),
     "C06": dict(families=[("asset", 36, 360)], oracle=lambda h: T.oracle_assets(h), slices=["asset"], ref="§7 C06"),
-    "C08": dict(families=[("fault", 136, 816)], oracle=lambda h: T.oracle_fault(h), slices=["fault"], ref="§7 C08"),
+    "C08": dict(families=[("fault", 240, 880)], oracle=lambda h: T.oracle_fault(h), slices=["fault"], ref="§7 C08"),
 }
 
 # properties whose unbounded theorems cover only part of the statement (what is missing is decided by the
@@ -100,7 +100,9 @@ def check(prop_id, tier, seed, replay=None):
         if family == "fault":
             # the fault family enumerates its cases by history index (case x direction x number of clients = 68 combinations):
             # one process walks them in order so that every combination is reached
-            parts = 1
+            # ... and a few processes do so, because the order of the unordered systems (the application's despawn system
+            # against the replication chain) is drawn once per process
+            parts = min(6, max(1, count // 80))
         per = (count + parts - 1) // parts
         with concurrent.futures.ThreadPoolExecutor(max_workers=parts) as ex:
             futs = [ex.submit(run_family, family, seed * 100 + k, per, tier) for k in range(parts)]
